@@ -110,7 +110,7 @@ def _se3_norm_product(op):
     return fn
 
 
-def _optimizer_update(kind):
+def _optimizer_update(kind, max_iter=1):
     """Graph.optimize applies an ARBITRARY solver output dx to SE(3)/SE(2) vertices: unit quaternion / angle range after
     the update (whatever the size of the increment), i.e. the inductive step for 'after any number of iterations'"""
 
@@ -118,13 +118,15 @@ def _optimizer_update(kind):
         from .graphkit import install_stubs, structure_graph
 
         env = install_stubs(P, g)
-        kinds = [kind, kind, kind]
-        graph, verts, eobjs, ids = structure_graph(P, g, kinds, [(0, 1), (1, 2), (2, 0)], {0}, symbolic_ids=False, m=3)
+        kinds = [kind, kind, kind] if max_iter == 1 else [kind, kind]
+        es = [(0, 1), (1, 2), (2, 0)] if max_iter == 1 else [(0, 1), (1, 0)]
+        # chi^2 is a free value per graph state (it may rise or fall between iterations: every control-flow outcome)
+        graph, verts, eobjs, ids = structure_graph(P, g, kinds, es, {0}, symbolic_ids=False, m=3, epoch_chi2=True)
         import warnings
 
         with warnings.catch_warnings():
             warnings.simplefilter("ignore")
-            graph.optimize(tol=0.0, max_iter=1, fix_first_pose=False, verbose=False)
+            graph.optimize(tol=0.0, max_iter=max_iter, fix_first_pose=False, verbose=False)
         for i, v in enumerate(verts):
             P.check("type_kept_%d" % i, type(v.pose).__name__ == "Pose" + kind)
             if kind == "SE3":
@@ -194,6 +196,7 @@ def cases(tier):
     for op in ["add", "sub", "inverse", "copy", "boxplus", "iadd"]:
         out.append(Case("se3-normproduct-" + op, _se3_norm_product(op), timeout=20, old_timeout=40, validate=v))
     for kind in ("SE2", "SE3"):
-        out.append(Case("optimizer-update-" + kind, _optimizer_update(kind), timeout=20, old_timeout=40, validate=1, val_tol=1e-6, shadow=False))
+        for mi in (1, 3):
+            out.append(Case("optimizer-update-%s-it%d" % (kind, mi), _optimizer_update(kind, mi), timeout=20, old_timeout=40, validate=1, val_tol=1e-6, shadow=False))
     out.append(Case("se3-normalize", _normalize, timeout=30, old_timeout=60, validate=v))
     return out
